@@ -13,7 +13,7 @@ use std::collections::{BTreeSet, HashMap, HashSet};
 use std::io;
 use std::io::ErrorKind;
 use std::net::SocketAddr;
-use std::sync::atomic::{AtomicU64, Ordering};
+use std::sync::atomic::{AtomicBool, AtomicU64, Ordering};
 use std::sync::Arc;
 use std::time::Duration;
 use tokio::net::UdpSocket;
@@ -58,6 +58,8 @@ pub(crate) struct QuicSocket {
     tls_connection_meta: tls_demultiplexer::ConnectionMeta,
     /// TLS client_random extracted from QUIC handshake
     client_random: Vec<u8>,
+    /// See [`EstablishedConnection.rearm_requested`]
+    rearm_requested: Arc<AtomicBool>,
 }
 
 pub(crate) enum QuicSocketEvent {
@@ -79,6 +81,8 @@ enum MultiplexerMessage {
 /// Messages sent by [`QuicSocket`]s to [`QuicMultiplexer`]
 enum SocketMessage {
     Close(quiche::ConnectionId<'static>),
+    /// The socket has sent packets, so the timers of the connection may have changed
+    Rearm(quiche::ConnectionId<'static>),
 }
 
 struct HandshakingConnection {
@@ -91,6 +95,8 @@ struct EstablishedConnection {
     /// Sends messages to [`QuicSocket.conn_rx`]
     socket_tx: mpsc::Sender<MultiplexerMessage>,
     quic_conn: Arc<std::sync::Mutex<QuicConnection>>,
+    /// Set while a [`SocketMessage::Rearm`] of the connection is on its way
+    rearm_requested: Arc<AtomicBool>,
 }
 
 enum Connection {
@@ -182,7 +188,7 @@ impl QuicMultiplexer {
                         Some(m) => Some(Event::UdpSend(m)),
                         None => return Err(io::Error::new(ErrorKind::Other, "Message receiving channel closed unexpectedly")),
                     },
-                    _ = &mut wait_timeout, if self.closest_deadline.is_some_and(|x| x > Instant::now()) => None,
+                    _ = &mut wait_timeout, if self.closest_deadline.is_some() => None,
                 }
             };
 
@@ -559,11 +565,13 @@ impl QuicMultiplexer {
         };
 
         let (tx, rx) = mpsc::channel(1);
+        let rearm_requested = Arc::new(AtomicBool::new(false));
         self.connections.insert(
             conn_id.clone().into_owned(),
             Connection::Established(EstablishedConnection {
                 socket_tx: tx,
                 quic_conn: quic_conn.clone(),
+                rearm_requested: rearm_requested.clone(),
             }),
         );
 
@@ -581,6 +589,7 @@ impl QuicMultiplexer {
             )),
             tls_connection_meta: conn.tls_connection_meta,
             client_random: extracted_client_random,
+            rearm_requested,
         })
     }
 
@@ -688,23 +697,56 @@ impl QuicMultiplexer {
         for conn_id in timedout {
             self.deadlines.remove(&conn_id);
 
-            match self.connections.get_mut(&conn_id) {
-                None => log_id!(
-                    debug,
-                    self.id,
-                    "Expired connection not found: {:?}",
-                    conn_id
-                ),
-                Some(Connection::Handshake(conn)) => conn.quic_conn.lock().unwrap().on_timeout(),
-                Some(Connection::Established(conn)) => conn.quic_conn.lock().unwrap().on_timeout(),
+            let quic_conn = match self.connections.get(&conn_id) {
+                None => {
+                    log_id!(
+                        debug,
+                        self.id,
+                        "Expired connection not found: {:?}",
+                        conn_id
+                    );
+                    continue;
+                }
+                Some(Connection::Handshake(conn)) => conn.quic_conn.clone(),
+                Some(Connection::Established(conn)) => conn.quic_conn.clone(),
+            };
+
+            let mut quic_conn = quic_conn.lock().unwrap();
+            quic_conn.on_timeout();
+            // The expired timer may have queued packets (loss probes, retransmissions,
+            // a connection close): they must be sent now, nothing else will do it
+            if let Err(e) =
+                flush_pending_data_to_active_path(&mut quic_conn, &self.socket, &self.id)
+            {
+                log_id!(debug, self.id, "Failed to flush QUIC connection: {}", e);
+            }
+            // ...and the connection's next timer must be waited for
+            if let Some(timeout) = quic_conn.timeout() {
+                self.deadlines.insert(conn_id, now + timeout);
             }
         }
+
+        // A deadline that has passed must not stay the closest one forever: the timers of
+        // all the connections would never fire again
+        self.closest_deadline = self.deadlines.values().min().copied();
     }
 
     fn on_socket_message(&mut self, message: SocketMessage) -> io::Result<()> {
         match message {
             SocketMessage::Close(conn_id) => {
                 self.connections.remove(&conn_id);
+                Ok(())
+            }
+            SocketMessage::Rearm(conn_id) => {
+                if let Some(Connection::Established(conn)) = self.connections.get(&conn_id) {
+                    conn.rearm_requested.store(false, Ordering::Release);
+                    let timeout = conn.quic_conn.lock().unwrap().timeout();
+                    match timeout {
+                        Some(x) => self.deadlines.insert(conn_id, Instant::now() + x),
+                        None => self.deadlines.remove(&conn_id),
+                    };
+                    self.closest_deadline = self.deadlines.values().min().copied();
+                }
                 Ok(())
             }
         }
@@ -959,12 +1001,19 @@ impl QuicSocket {
     }
 
     fn flush_pending_data(&self) -> io::Result<()> {
-        flush_pending_data(
-            &mut self.quic_conn.lock().unwrap(),
-            &self.udp_socket,
-            &self.peer,
-            &self.id,
-        )
+        let mut quic_conn = self.quic_conn.lock().unwrap();
+        let sent = flush_pending_data(&mut quic_conn, &self.udp_socket, &self.peer, &self.id)?;
+
+        // The multiplexer waits for the timers of the connection (loss detection, idle) as
+        // they were when it last saw a packet of it: tell it that they have changed
+        if sent > 0 && !self.rearm_requested.swap(true, Ordering::AcqRel) {
+            let message = SocketMessage::Rearm(quic_conn.source_id().into_owned());
+            if self.mux_tx.lock().unwrap().try_send(message).is_err() {
+                self.rearm_requested.store(false, Ordering::Release);
+            }
+        }
+
+        Ok(())
     }
 
     fn poll_h3_connection(&self) -> h3::Result<(u64, h3::Event)> {
@@ -1091,11 +1140,34 @@ fn flush_pending_data(
     udp_socket: &UdpSocket,
     peer: &SocketAddr,
     id: &log_utils::IdChain<u64>,
+) -> io::Result<usize> {
+    let mut out = [0; net_utils::MAX_UDP_PAYLOAD_SIZE];
+    let mut sent = 0;
+    loop {
+        match quic_conn.send(&mut out) {
+            Ok((n, _)) => {
+                udp_socket_send_to(udp_socket, &out[..n], peer, id)?;
+                sent += 1;
+            }
+            Err(quiche::Error::Done) => break,
+            Err(e) => return Err(io::Error::new(ErrorKind::Other, e.to_string())),
+        }
+    }
+
+    Ok(sent)
+}
+
+/// Like [`flush_pending_data`], but for callers which do not know the peer address:
+/// the packets are sent where the connection's active path leads
+fn flush_pending_data_to_active_path(
+    quic_conn: &mut quiche::Connection,
+    udp_socket: &UdpSocket,
+    id: &log_utils::IdChain<u64>,
 ) -> io::Result<()> {
     let mut out = [0; net_utils::MAX_UDP_PAYLOAD_SIZE];
     loop {
         match quic_conn.send(&mut out) {
-            Ok((n, _)) => udp_socket_send_to(udp_socket, &out[..n], peer, id)?,
+            Ok((n, info)) => udp_socket_send_to(udp_socket, &out[..n], &info.to, id)?,
             Err(quiche::Error::Done) => break,
             Err(e) => return Err(io::Error::new(ErrorKind::Other, e.to_string())),
         }
